@@ -215,6 +215,17 @@ def check(prop, tier, seed, replay=None):
         for (op, clause), st in sorted(table.items()):
             V.log(f"  rejected {op} {clause}: " + ", ".join(f"{k} x{v}" for k, v in sorted(st.items())))
         oc.extra["rejected_by_clause_and_stratum"] = {f"{op} {clause}": st for (op, clause), st in sorted(table.items())}
+        # observation (never a verdict): lp2d::solve against the exact LP definition of spec/LP2D.tla, see tools/obs_lp2d.py
+        if not replay and not os.environ.get("VERIF_C14_PARTS") and not os.environ.get("VERIF_NO_LP2D"):
+            try:
+                import obs_lp2d
+                obs = obs_lp2d.observe(n=1500 if tier == "quick" else 20000, seed=seed)
+                oc.extra["lp2d_observation"] = obs
+                V.log(f"  observation lp2d: {obs.get('programs')} programs, {obs.get('programs_with_a_difference')} differences from spec/LP2D.tla "
+                      f"(design model holds: {obs.get('design_model', {}).get('holds')})")
+            except Exception as exc:   # an observation must never decide the check
+                oc.extra["lp2d_observation"] = {"error": str(exc)[:500]}
+                V.log(f"  observation lp2d failed: {str(exc)[:200]}")
         rule = ("one evaluation = one recorded library call (a whole fit / curve) validated by TLC against the relational "
                 "specification; cells = operation | stratum re-derived by the trace spec (specification, smallest sampling interval, "
                 "largest neighbouring ratio; Dubins word actually returned; start/end speed class); distinct_nontrivial = non-empty cells")
